@@ -27,11 +27,21 @@ def sexp(t):
     return "(u %s %s)" % (t[1], sexp(t[2]))
 
 
+def mixcase(h, salt):
+    """hex digits in lower, upper or mixed case, chosen deterministically from the value"""
+    k = (salt + len(h)) % 3
+    if k == 0:
+        return h.lower()
+    if k == 1:
+        return h.upper()
+    return "".join(c.upper() if i % 2 else c.lower() for i, c in enumerate(h))
+
+
 def lit(v, form):
     if form == 1:
-        return "$%X" % v
+        return "$" + mixcase("%x" % v, v)
     if form == 2:
-        return "0x%x" % v
+        return "0x" + mixcase("%x" % v, v + 1)
     if form == 3:
         return "0b" + bin(v)[2:]
     if form == 4 and v > 0:
